@@ -30,6 +30,7 @@ package obfs
 // short headers pass unchanged, datagram size in [min,max] whenever salt+header+chunk <= max.
 
 import (
+	"runtime"
 	"bytes"
 	"encoding/binary"
 	"encoding/hex"
@@ -47,7 +48,10 @@ import (
 )
 
 func TestSim(t *testing.T) {
-	hysim.Main(t, &hysim.Harness{Name: "c14", Gen: c14Gen, Exec: c14Exec})
+	hysim.Main(t,
+		&hysim.Harness{Name: "c14", Gen: c14Gen, Exec: c14Exec},
+		&hysim.Harness{Name: "c14race", Gen: c14RaceGen, Exec: c14RaceExec},
+	)
 }
 
 const (
@@ -1353,5 +1357,280 @@ func c14Exec(x *hysim.Run) {
 	}
 	if al := x.WaitTasks(2 * time.Second); len(al) != 0 {
 		x.Violate("task-leak", "tasks still alive 2s after Close (reader / GC loops must end): %v", al)
+	}
+}
+
+
+// =============================================================================================
+// c14race: the step model above hands the receiver one datagram at a time and waits until it has
+// been consumed, which is what makes the table comparable after every datagram — and what keeps
+// two readers from ever being inside the receive path together. This second harness gives that
+// up: 2-3 reader tasks share the receiving Gecko socket and the datagrams of a handful of
+// messages arrive in bursts (nothing waits for a datagram to be consumed), under seeded
+// reschedules and short stalls at every lock and socket operation. No drops, no duplicates, at
+// most 6 messages per source in flight, everything well inside the TTL — so the oracle is plain:
+// every packet a reader gets is byte-identical to a packet some sender wrote from that source,
+// each written packet comes out exactly once.
+
+func c14RaceGen(r *hysim.Rand, tier string) *hysim.Script {
+	sc := &hysim.Script{Cfg: map[string]int64{}}
+	sc.Cfg["klen"] = int64(r.Range(4, 32))
+	sc.Cfg["kseed"] = int64(r.Uint64() >> 1)
+	nsrc := r.Range(1, 3)
+	sc.Cfg["nsrc"] = int64(nsrc)
+	sc.Cfg["nrd"] = int64(r.Range(2, 3))
+	if r.Chance(1, 2) {
+		sc.Cfg["min"], sc.Cfg["max"] = int64(r.Range(1, 100)), int64(r.Range(100, 600))
+	}
+	switch r.Intn(3) {
+	case 0:
+		sc.Cfg["y_gs"] = int64(r.Pick(64, 256, 512))
+	case 1:
+		sc.Cfg["y_gs"] = int64(r.Pick(32, 128))
+		sc.Cfg["y_st"] = int64(r.Pick(16, 64))
+		sc.Cfg["y_stmax_us"] = int64(r.Pick(50, 2000, 20000))
+	case 2:
+		sc.Cfg["y_st"] = int64(r.Pick(128, 256))
+		sc.Cfg["y_stmax_us"] = int64(r.Pick(20, 500))
+	}
+	per := make([]int, nsrc)
+	n := r.Range(2, 6*nsrc)
+	for i := 0; i < n; i++ {
+		si := r.Intn(nsrc)
+		if per[si] >= 6 {
+			continue
+		}
+		per[si]++
+		sc.Ops = append(sc.Ops, hysim.Op{K: "w", A: []int64{int64(si), c14Len(r), int64(r.Uint64() >> 1), int64(r.Pick(1, 1, 1, 0))}})
+	}
+	// arrival: a seeded order over all datagrams, cut into bursts
+	sc.Cfg["order"] = int64(r.Uint64() >> 1)
+	sc.Cfg["mode"] = int64(r.Intn(3)) // 0 as sent, 1 shuffled within a window, 2 fully shuffled
+	sc.Cfg["burst"] = int64(r.Pick(2, 3, 4, 8, 64))
+	sc.Cfg["gap_us"] = int64(r.Pick(0, 0, 1, 50, 3000))
+	return sc
+}
+
+func c14RaceExec(x *hysim.Run) {
+	sc := x.Script
+	w := &c14World{x: x, shadow: map[c14Key]*c14Entry{}, perSrc: map[string]int{}}
+	clamp := func(v int64, lo, hi int) int {
+		if int(v) < lo {
+			return lo
+		}
+		if int(v) > hi {
+			return hi
+		}
+		return int(v)
+	}
+	w.key = c14Bytes(sc.Get("kseed", 1), clamp(sc.Get("klen", 8), 4, 64))
+	w.f = simnet.NewFabric(x, simnet.LinkCfg{})
+	ep, err := w.f.Listen("10.0.0.1", 443)
+	if err != nil {
+		hysim.HarnessBug("c14race: %v", err)
+	}
+	w.tap = &c14Tap{Endpoint: ep}
+	w.recvAddr = ep.LocalAddr()
+	mn, mx := int(sc.Get("min", 0)), int(sc.Get("max", 0))
+	if mn < 0 || mx < 0 || mx > 2048 || (mx != 0 && mn > mx) {
+		mn, mx = 0, 0
+	}
+	opts := GeckoOptions{Password: w.key, MinPacketSize: mn, MaxPacketSize: mx}
+	rc, err := WrapPacketConnGecko(w.tap, opts)
+	if err != nil {
+		hysim.HarnessBug("c14race: receiver wrap: %v", err)
+	}
+	g, ok := rc.(*geckoPacketConn)
+	if !ok {
+		hysim.HarnessBug("c14race: receiver is %T", rc)
+	}
+	w.g = g
+	w.minPkt, w.maxPkt = g.minPkt, g.maxPkt
+	nsrc := clamp(sc.Get("nsrc", 1), 1, 3)
+	for i := 0; i < nsrc; i++ {
+		cp := &c14Capture{addr: &net.UDPAddr{IP: net.IPv4(10, 1, 0, byte(1+i)), Port: 4000 + i}, closed: make(chan struct{})}
+		sp, err := WrapPacketConnGecko(cp, opts)
+		if err != nil {
+			hysim.HarnessBug("c14race: sender wrap: %v", err)
+		}
+		w.caps = append(w.caps, cp)
+		w.senders = append(w.senders, sp)
+	}
+	// ---- the senders write (sequentially, without scheduling faults: the send path is c14's subject)
+	x.YieldsOff()
+	perSrc := map[int]int{}
+	for _, op := range sc.Ops {
+		if op.K != "w" || x.Violated() {
+			continue
+		}
+		si := int(uint64(op.Arg(0)) % uint64(nsrc))
+		if perSrc[si] >= 6 {
+			continue
+		}
+		perSrc[si]++
+		w.opWrite(op)
+	}
+	if x.Violated() {
+		return
+	}
+	// payloads must tell the messages apart
+	seen := map[string]bool{}
+	for _, m := range w.msgs {
+		k := m.addr.String() + "|" + string(m.payload)
+		if seen[k] {
+			x.Inconclusive("two identical packets from one source")
+			return
+		}
+		seen[k] = true
+	}
+	x.YieldsOn()
+	nrd := clamp(sc.Get("nrd", 2), 2, 3)
+	rdone := make([]chan struct{}, nrd)
+	for i := 0; i < nrd; i++ {
+		i := i
+		rdone[i] = make(chan struct{})
+		hysim.Go(fmt.Sprintf("c14race:reader %d", i), func() {
+			defer close(rdone[i])
+			buf := make([]byte, 4096)
+			for {
+				n, addr, err := rc.ReadFrom(buf)
+				if err != nil {
+					if !w.closing {
+						x.Violate("read-error", "reader %d: ReadFrom failed while the socket is open: %v", i, err)
+					}
+					return
+				}
+				from := "<nil>"
+				if addr != nil {
+					from = addr.String()
+				}
+				x.Ev("R rd%d n=%d from=%s %s", i, n, from, c14Hex(buf[:n]))
+				w.outs = append(w.outs, c14Out{data: append([]byte(nil), buf[:n]...), from: from, rd: i})
+			}
+		})
+	}
+	// ---- arrival order
+	items := append([]c14Item(nil), w.pool...)
+	pr := hysim.NewRand(uint64(sc.Get("order", 1)), 0xC14A)
+	switch sc.Get("mode", 0) {
+	case 1:
+		for i := range items {
+			j := i + pr.Intn(4)
+			if j < len(items) {
+				items[i], items[j] = items[j], items[i]
+			}
+		}
+	case 2:
+		p := pr.Perm(len(items))
+		sh := make([]c14Item, len(items))
+		for i, j := range p {
+			sh[i] = items[j]
+		}
+		items = sh
+	}
+	burst := clamp(sc.Get("burst", 4), 1, 64)
+	gap := time.Duration(clamp(sc.Get("gap_us", 0), 0, 100000)) * time.Microsecond
+	for i, it := range items {
+		x.Ev("D #%d msg%d chunk%d from %s (%d bytes)", i, it.msg, it.idx, it.from, len(it.wire))
+		if !w.f.Inject(it.from, w.recvAddr.String(), it.wire) {
+			hysim.HarnessBug("c14race: inject failed")
+		}
+		w.inj++
+		if (i+1)%burst == 0 {
+			if gap > 0 {
+				time.Sleep(gap)
+			} else {
+				runtime.Gosched()
+			}
+		}
+	}
+	if len(w.msgs) >= 2 {
+		x.NonTrivial()
+	}
+	x.Mix(fmt.Sprintf("race src%d rd%d m%d b%d", nsrc, nrd, len(w.msgs), burst))
+	// ---- settle
+	x.Drain(10 * time.Millisecond)
+	for i := 0; i < 2000; i++ {
+		synctest.Wait()
+		if w.tap.taken == w.inj && w.tap.Pending() == 0 {
+			break
+		}
+		time.Sleep(time.Millisecond)
+	}
+	synctest.Wait()
+	if w.tap.taken != w.inj {
+		x.Violate("reader-wedged", "receiver consumed %d of %d datagrams with %d readers", w.tap.taken, w.inj, nrd)
+	}
+	// ---- judge
+	got := map[int]int{}
+	for _, o := range w.outs {
+		match := -1
+		sameLen := -1
+		for _, m := range w.msgs {
+			if m.addr.String() != o.from {
+				continue
+			}
+			if bytes.Equal(m.payload, o.data) {
+				match = m.ref
+				break
+			}
+			if len(m.payload) == len(o.data) {
+				sameLen = m.ref
+			}
+		}
+		switch {
+		case match >= 0:
+			got[match]++
+			if got[match] > 1 {
+				x.Violate("duplicate-delivery", "packet #%d (%d bytes from %s) was returned %d times; every datagram arrived once", match, len(o.data), o.from, got[match])
+			}
+		case sameLen >= 0:
+			x.Violate("delivered-bytes-differ", "reader %d got %d bytes from %s that match no written packet: %s; packet #%d of that source and length is %s", o.rd, len(o.data), o.from, c14Hex(o.data), sameLen, c14Hex(w.msgs[sameLen].payload))
+		default:
+			x.Violate("spurious-delivery", "reader %d got %d bytes from %s that no sender wrote from there: %s", o.rd, len(o.data), o.from, c14Hex(o.data))
+		}
+		if x.Violated() {
+			break
+		}
+	}
+	if !x.Violated() {
+		if x.Now() < c14TTL()/2 {
+			for _, m := range w.msgs {
+				if got[m.ref] == 0 {
+					x.Violate("message-not-delivered", "packet #%d (%d bytes, long=%v, source %s): all of its datagrams arrived once, within %v, at most 6 packets of the source in flight — no reader got it", m.ref, len(m.payload), m.long, m.addr, x.Now())
+					break
+				}
+			}
+			x.Probe("race-complete-delivery-checked")
+		} else {
+			x.Probe("race-run-longer-than-half-ttl")
+		}
+		if n := len(w.g.reassembly); n != 0 && x.Now() < c14TTL()/2 {
+			x.Violate("table-residue", "%d reassembly entries left although every message was completed", n)
+		}
+	}
+	readers := map[int]bool{}
+	for _, o := range w.outs {
+		readers[o.rd] = true
+	}
+	if len(readers) >= 2 {
+		x.Probe("packets-returned-by-several-readers")
+	}
+	w.closing = true
+	if err := rc.Close(); err != nil {
+		x.Violate("close-error", "receiver Close: %v", err)
+	}
+	for _, sd := range w.senders {
+		sd.Close()
+	}
+	for i, d := range rdone {
+		select {
+		case <-d:
+		case <-time.After(time.Second):
+			x.Violate("reader-stuck-after-close", "reader %d did not return within 1s of Close", i)
+		}
+	}
+	if al := x.WaitTasks(2 * time.Second); len(al) != 0 {
+		x.Violate("task-leak", "tasks still alive 2s after Close: %v", al)
 	}
 }
